@@ -245,6 +245,14 @@ pub fn run(prop: &str, model_module: &str, body: impl FnOnce(&mut Ctx)) {
     std::fs::write(out.join("stats.json"), j).unwrap();
 }
 
+/// Path of the `jj` executable built by this harness crate from /repo's working tree
+/// (`src/bin/jjbin.rs`). Properties that drive the CLI must list "jjbin" under
+/// "extra_bins" in props/Cxx.json so that `./check` rebuilds it.
+pub fn jj_bin_path() -> PathBuf {
+    let exe = std::env::current_exe().expect("current_exe");
+    exe.parent().expect("bin dir").join("jjbin")
+}
+
 /// Run `f`, turning a panic into `None`.
 pub fn catch<T>(f: impl FnOnce() -> T) -> Option<T> {
     std::panic::catch_unwind(std::panic::AssertUnwindSafe(f)).ok()
